@@ -9,6 +9,8 @@
       immutable local) is substituted: every use of `a` becomes `<place>.0`, so index arithmetic written with
       destructured locals normalises to the same atoms as arithmetic written with `self.stride.0`.
   D4  `let (a, b) = (e1, e2);` is split into `let a = e1; let b = e2;`.
+  D5  a local closure whose every use is a direct call is inlined at its call sites.
+  D6  `let d = (e0, e1, ..);` used only as `d.N` (with duplicable components) is replaced by its components.
 """
 import copy
 
@@ -290,6 +292,62 @@ def inline_local_closures(fn, counter):
     return n
 
 
+def split_tuple_values(fn):
+    """D6  `let d = (e0, e1, ..);` with every use of `d` of the form `d.N` and every e_i a duplicable pure place / literal:
+    each `d.N` is replaced by e_N and the let is dropped (e.g. the argument tuple of an inlined helper)."""
+    body = fn.get("body")
+    n = 0
+    for b in list(_walk(body)):
+        if b.get("k") != "block":
+            continue
+        for s in list(b["stmts"]):
+            if not (s.get("k") == "let" and s.get("init") is not None and s.get("els") is None and s["pat"].get("k") == "bind"
+                    and "Mut)" not in str(s["pat"].get("mode"))):
+                continue
+            init = s["init"]
+            while init.get("k") == "blk" and not init["b"]["stmts"] and init["b"]["tail"] is not None:
+                init = init["b"]["tail"]
+            if init.get("k") != "tup" or not init["xs"]:
+                continue
+
+            def dup_ok(e):
+                while e is not None and e.get("k") in ("ref", "blk") or (e is not None and e.get("k") == "un" and e.get("op") == "Deref"):
+                    if e["k"] == "blk":
+                        if e["b"]["stmts"] or e["b"]["tail"] is None:
+                            return False
+                        e = e["b"]["tail"]
+                    else:
+                        e = e["x"]
+                return e is not None and (e.get("k") in ("local", "lit") or (e.get("k") == "field" and _pure_place(e)))
+            if not all(dup_ok(e) for e in init["xs"]):
+                continue
+            hid = s["pat"]["hid"]
+            uses = [x for x in _walk(fn["body"]) if x.get("k") == "local" and x.get("hid") == hid]
+            fields = [x for x in _walk(fn["body"]) if x.get("k") == "field" and isinstance(x.get("b"), dict) and x["b"].get("k") == "local" and x["b"].get("hid") == hid
+                      and str(x.get("f")).isdigit() and int(x["f"]) < len(init["xs"])]
+            if not uses or len(uses) != len(fields):
+                continue
+            comps = init["xs"]
+
+            def subst(x):
+                if isinstance(x, list):
+                    return [subst(v) for v in x]
+                if not isinstance(x, dict):
+                    return x
+                if x.get("k") == "field" and isinstance(x.get("b"), dict) and x["b"].get("k") == "local" and x["b"].get("hid") == hid and str(x.get("f")).isdigit():
+                    return copy.deepcopy(comps[int(x["f"])])
+                for k_, v in list(x.items()):
+                    if isinstance(v, (dict, list)):
+                        x[k_] = subst(v)
+                return x
+            fn["body"] = subst(fn["body"])
+            for b2 in _walk(fn["body"]):
+                if b2.get("k") == "block":
+                    b2["stmts"] = [t for t in b2["stmts"] if not (t.get("k") == "let" and t.get("pat", {}).get("k") == "bind" and t["pat"].get("hid") == hid)]
+            n += 1
+    return n
+
+
 _CTR = [0]
 
 
@@ -304,5 +362,6 @@ def run(facts):
         counts["split_tuple_lets"] = counts.get("split_tuple_lets", 0) + split_tuple_lets(fn["body"])
         counts["destructured"] += destructure_subst(fn, facts["types"])
         counts["local_closures"] += inline_local_closures(fn, ctr)
+        counts["tuple_values"] = counts.get("tuple_values", 0) + split_tuple_values(fn)
     facts["_desugared"] = counts
     return counts
